@@ -69,7 +69,7 @@ def obligations(tier):
     prog = model.load()
     obs = []
     for cls in drivers.COND_CLASSES:
-        for ctx in drivers.BATCH_CTX:
+        for ctx in drivers.BATCH_CTX + drivers.ROUTE_CTX:
             obs.append(marginal_ob(prog, cls, ctx))
             obs.append(yblock_ob(prog, cls, ctx))
     return obs
